@@ -139,6 +139,52 @@ func (c *Call) MethodName() string {
 // strip removes value-preserving wrappers: ChangeType, MakeInterface, ChangeInterface, (optionally) integer
 // width conversions, and the load of a local variable cell that is assigned exactly once (a local that is captured by a
 // closure or has its address taken lives in such a cell: x := e; ... use(x)).
+// allocStaysLocal: the cell is only ever used through field addresses and whole loads / stores of the cell itself in its
+// own function - its address is never stored, passed, returned, bound or converted (typically a small struct that was
+// handed to a helper which has since been inlined).
+func allocStaysLocal(al *ssa.Alloc) bool {
+	refs := al.Referrers()
+	if refs == nil {
+		return false
+	}
+	for _, r := range *refs {
+		switch x := r.(type) {
+		case *ssa.FieldAddr:
+			if x.X != ssa.Value(al) {
+				return false
+			}
+			if fr := x.Referrers(); fr != nil {
+				for _, u := range *fr {
+					switch y := u.(type) {
+					case *ssa.UnOp:
+						if y.Op != token.MUL {
+							return false
+						}
+					case *ssa.Store:
+						if y.Addr != ssa.Value(x) {
+							return false
+						}
+					default:
+						return false
+					}
+				}
+			}
+		case *ssa.UnOp:
+			if x.Op != token.MUL {
+				return false
+			}
+		case *ssa.Store:
+			if x.Addr != ssa.Value(al) {
+				return false
+			}
+		case *ssa.DebugRef:
+		default:
+			return false
+		}
+	}
+	return true
+}
+
 // inCarrierLookup guards strip against re-entering the carrier-struct lookup (which itself inspects field accesses).
 var inCarrierLookup bool
 
@@ -155,7 +201,7 @@ func strip(v ssa.Value, widths bool) ssa.Value {
 				}
 				// a field of a local struct built only to carry values (rttFold{minRTT: c, ...}): what was stored into it
 				if fa, ok := x.X.(*ssa.FieldAddr); ok && curProg != nil && !inCarrierLookup {
-					if al, isAlloc := fa.X.(*ssa.Alloc); isAlloc && !al.Heap {
+					if al, isAlloc := fa.X.(*ssa.Alloc); isAlloc && (!al.Heap || allocStaysLocal(al)) {
 						inCarrierLookup = true
 						val, _, ok := curProg.carriedField(fa.X, fa.Field, nil, 0)
 						inCarrierLookup = false
@@ -170,7 +216,7 @@ func strip(v ssa.Value, widths bool) ssa.Value {
 		case *ssa.Field:
 			localCarrier := false
 			if u, ok := x.X.(*ssa.UnOp); ok && u.Op == token.MUL {
-				if al, ok := u.X.(*ssa.Alloc); ok && !al.Heap {
+				if al, ok := u.X.(*ssa.Alloc); ok && (!al.Heap || allocStaysLocal(al)) {
 					localCarrier = true
 				}
 			}
